@@ -1,9 +1,9 @@
-from asyncio import CancelledError, gather
-from collections.abc import Iterable
+from asyncio import CancelledError, Task, gather, get_running_loop
+from collections.abc import Coroutine, Iterable
 from contextlib import AbstractAsyncContextManager
 from itertools import chain
 from types import TracebackType
-from typing import cast, final
+from typing import Any, cast, final
 
 from haiway.state import State
 from haiway.utils import freeze
@@ -14,6 +14,19 @@ __all__ = [
 ]
 
 type Disposable = AbstractAsyncContextManager[Iterable[State] | State | None]
+
+
+def _started[Result](
+    coroutine: Coroutine[Any, Any, Result],
+    /,
+) -> Task[Result]:
+    # begin the cleanup right away - a task cancelled before its first step never runs at all,
+    # which would leave an entered disposable without exit when the scope exit gets cancelled
+    return Task(
+        coroutine,
+        loop=get_running_loop(),
+        eager_start=True,
+    )
 
 
 @final
@@ -82,10 +95,12 @@ class Disposables:
             result
             for result in await gather(
                 *[
-                    disposable.__aexit__(
-                        type(failure),
-                        failure,
-                        failure.__traceback__,
+                    _started(
+                        disposable.__aexit__(
+                            type(failure),
+                            failure,
+                            failure.__traceback__,
+                        )
                     )
                     for disposable in entered
                 ],
@@ -110,10 +125,12 @@ class Disposables:
     ) -> None:
         results: list[bool | BaseException | None] = await gather(
             *[
-                disposable.__aexit__(
-                    exc_type,
-                    exc_val,
-                    exc_tb,
+                _started(
+                    disposable.__aexit__(
+                        exc_type,
+                        exc_val,
+                        exc_tb,
+                    )
                 )
                 for disposable in self._disposables
             ],
